@@ -271,6 +271,13 @@ pub struct Report {
 
 impl Report {
     pub fn new(args: &Args, level: &'static str, engine: &str) -> Self {
+        // every checker runs under the watchdog: a work item (or a transition of a search) in
+        // which the library never returns is reported as a violation instead of hanging the
+        // check until the wall-clock cap (the limits are far above what a work item takes)
+        ITEM_LIMIT.store(if args.tier == Tier::Thorough { 3600 } else { 180 }, Ordering::Relaxed);
+        if WATCH_PROPERTY.get().is_none() {
+            start_watchdog(&args.property, 120);
+        }
         Report {
             property: args.property.clone(),
             tier: args.tier,
@@ -481,35 +488,59 @@ pub struct Slot {
     counter: AtomicU64,
     ptr: AtomicPtr<u8>,
     len: AtomicUsize,
+    limit: AtomicU64,
 }
 
 static SLOTS: OnceLock<Mutex<Vec<Arc<Slot>>>> = OnceLock::new();
 static WATCH_PROPERTY: OnceLock<String> = OnceLock::new();
+static WATCH_DEFAULT_LIMIT: AtomicU64 = AtomicU64::new(10);
+/// Limit for one work item of `par_tally` / one transition of an explicit-state search (far
+/// above anything a work item takes; only a call into the library that never returns gets there).
+pub static ITEM_LIMIT: AtomicU64 = AtomicU64::new(180);
 
 thread_local! {
     static MY_SLOT: Arc<Slot> = {
-        let s = Arc::new(Slot { counter: AtomicU64::new(0), ptr: AtomicPtr::new(std::ptr::null_mut()), len: AtomicUsize::new(0) });
+        let s = Arc::new(Slot { counter: AtomicU64::new(0), ptr: AtomicPtr::new(std::ptr::null_mut()), len: AtomicUsize::new(0), limit: AtomicU64::new(0) });
         SLOTS.get_or_init(|| Mutex::new(Vec::new())).lock().unwrap().push(s.clone());
         s
     };
 }
 
-/// Runs `f` with `input` published as the case being executed.
+/// Runs `f` with `input` published as the case being executed (default limit of the process).
 #[inline]
 pub fn watched<T>(input: &[u8], f: impl FnOnce() -> T) -> T {
+    watched_for(0, input, f)
+}
+
+/// Runs `f` with `input` (the case, or a label for it) published as what this thread is doing; if
+/// it is still doing it after `limit_s` seconds (0: the default limit of the process) the
+/// watchdog reports a non-termination violation and ends the process. Calls nest: the outer
+/// publication is restored - and its clock restarted - when the inner one ends.
+#[inline]
+pub fn watched_for<T>(limit_s: u64, input: &[u8], f: impl FnOnce() -> T) -> T {
     MY_SLOT.with(|s| {
+        let outer = (s.ptr.load(Ordering::Relaxed), s.len.load(Ordering::Relaxed), s.limit.load(Ordering::Relaxed));
+        s.ptr.store(std::ptr::null_mut(), Ordering::Release);
         s.len.store(input.len(), Ordering::Relaxed);
-        s.ptr.store(input.as_ptr() as *mut u8, Ordering::Release);
+        s.limit.store(limit_s, Ordering::Relaxed);
         s.counter.fetch_add(1, Ordering::Relaxed);
+        s.ptr.store(input.as_ptr() as *mut u8, Ordering::Release);
         let r = f();
         s.ptr.store(std::ptr::null_mut(), Ordering::Release);
+        s.len.store(outer.1, Ordering::Relaxed);
+        s.limit.store(outer.2, Ordering::Relaxed);
+        s.counter.fetch_add(1, Ordering::Relaxed);
+        s.ptr.store(outer.0, Ordering::Release);
         r
     })
 }
 
-/// Starts the watchdog thread (limit in seconds).
+/// Starts the watchdog thread (default limit in seconds); later calls only change the default.
 pub fn start_watchdog(property: &str, limit_s: u64) {
-    let _ = WATCH_PROPERTY.set(property.to_string());
+    WATCH_DEFAULT_LIMIT.store(limit_s, Ordering::Relaxed);
+    if WATCH_PROPERTY.set(property.to_string()).is_err() {
+        return;
+    }
     SLOTS.get_or_init(|| Mutex::new(Vec::new()));
     std::thread::spawn(move || {
         let mut last: Vec<(u64, u64)> = Vec::new(); // (counter, seconds unchanged)
@@ -522,20 +553,30 @@ pub fn start_watchdog(property: &str, limit_s: u64) {
                 let p = s.ptr.load(Ordering::Acquire);
                 if !p.is_null() && c == last[i].0 {
                     last[i].1 += 1;
-                    if last[i].1 >= limit_s {
+                    let limit = match s.limit.load(Ordering::Relaxed) {
+                        0 => WATCH_DEFAULT_LIMIT.load(Ordering::Relaxed),
+                        l => l,
+                    };
+                    if last[i].1 >= limit {
                         let len = s.len.load(Ordering::Relaxed);
                         // the worker is stuck inside the call, so the buffer is stable
                         let bytes = unsafe { std::slice::from_raw_parts(p, len) }.to_vec();
                         let property = WATCH_PROPERTY.get().unwrap();
-                        let dir = verif_root().join("replays").join(property);
+                        let suffix = match std::env::var("VERIF_SECONDARY") {
+                            Ok(v) if v == "1" => "-debug-assertions".to_string(),
+                            Ok(v) if !v.is_empty() => format!("-{v}"),
+                            _ => String::new(),
+                        };
+                        let dir = verif_root().join("replays").join(format!("{property}{suffix}"));
                         let _ = std::fs::create_dir_all(&dir);
                         let path = dir.join("nontermination.json");
                         let body = json!({
                             "property": property,
-                            "what": format!("a case has been running for more than {limit_s} s"),
+                            "what": format!("a case has been running for more than {limit} s: the library does not return"),
                             "case": {"kind": "bytes", "bytes": bytes, "lossy": String::from_utf8_lossy(&bytes)},
                         });
                         let _ = std::fs::write(&path, serde_json::to_string_pretty(&body).unwrap());
+                        println!("  violation[0] : {} has been running for more than {limit} s: the library does not return", String::from_utf8_lossy(&bytes));
                         println!("VIOLATION property={} replay={}", property, path.display());
                         std::process::exit(1);
                     }
@@ -557,7 +598,8 @@ where
     items
         .into_par_iter()
         .fold(Tally::new, |mut t, item| {
-            f(item, &mut t);
+            let label = std::any::type_name::<I>();
+            watched_for(ITEM_LIMIT.load(Ordering::Relaxed), label.as_bytes(), || f(item, &mut t));
             t
         })
         .reduce(Tally::new, |mut a, b| {
